@@ -43,6 +43,13 @@ pub struct Case {
     pub placement: Placement,
     pub allow: bool,
     pub sibling: String,
+    /// validation runs started on the same `Collector` (a server performs one after the other)
+    #[serde(default = "one")]
+    pub runs: u8,
+}
+
+fn one() -> u8 {
+    1
 }
 
 #[derive(Clone, Copy, Debug, PartialEq, Eq)]
@@ -142,7 +149,7 @@ fn host_form() -> impl Strategy<Value = (String, String)> {
 }
 
 fn case_strategy() -> impl Strategy<Value = Case> {
-    (host_form(), prop_oneof![Just(Placement::Rsync), Just(Placement::Notify), Just(Placement::Both)], any::<bool>(), label()).prop_map(|((authority, form), placement, allow, sib)| Case { authority, form, placement, allow, sibling: format!("{}.sibling.rpki.test", sib) })
+    (host_form(), prop_oneof![Just(Placement::Rsync), Just(Placement::Notify), Just(Placement::Both)], any::<bool>(), label(), 1u8..=3).prop_map(|((authority, form), placement, allow, sib, runs)| Case { authority, form, placement, allow, sibling: format!("{}.sibling.rpki.test", sib), runs })
 }
 
 static OPEN_FORMS: Mutex<BTreeMap<String, String>> = Mutex::new(BTreeMap::new());
@@ -182,12 +189,17 @@ fn prop(c: &Case, info: &mut CaseInfo) -> Verdict {
     if collector.ignite().is_err() {
         return Verdict::Dropped("ignite_failed".into());
     }
-    let run = collector.start();
-    let r1 = run.repository(&ca).map(|r| r.map(|r| r.is_rrdp()));
-    let r2 = run.repository(&sib).map(|r| r.map(|r| r.is_rrdp()));
-    drop(run);
-    if r1.is_err() || r2.is_err() {
-        return Verdict::fail(format!("C31/run-failed/form={}", c.form), format!("Run::repository failed the run for authority {:?}", c.authority));
+    info.class(format!("runs={}", c.runs.clamp(1, 3)));
+    let mut r1 = Ok(None);
+    for _ in 0..c.runs.clamp(1, 3) {
+        // the fetch logs accumulate: a flagged host must not be contacted in any of the runs
+        let run = collector.start();
+        r1 = run.repository(&ca).map(|r| r.map(|r| r.is_rrdp()));
+        let r2 = run.repository(&sib).map(|r| r.map(|r| r.is_rrdp()));
+        drop(run);
+        if r1.is_err() || r2.is_err() {
+            return Verdict::fail(format!("C31/run-failed/form={}", c.form), format!("Run::repository failed the run for authority {:?}", c.authority));
+        }
     }
     let rsync_calls = rsync_log(dir.path());
     let https = srv.log();
@@ -269,7 +281,7 @@ fn connect_matches(got: &str, want: &str) -> bool {
 }
 
 pub fn run(ctx: &Ctx, rep: &mut Report, replay: Option<&serde_json::Value>) {
-    rep.rule("generated authorities (localhost; dotted IPv4; bare and bracketed IPv6; name/IPv4/IPv6/localhost with explicit port incl. default ports; clean names with digits, quad-like prefixes or containing 'localhost'; open forms: case variants, trailing dot, inet_aton-style numeric names, userinfo) placed in caRepository, rpkiNotify or both of a CA certificate issued under a clean trust anchor (encoded, decoded, validated, CaCert::chain) and handed to Run::repository next to a sibling CA on a clean host, x allow-dubious-hosts; oracle = independent classifier from the property text; flagged+option off => no rvrsync invocation and no CONNECT for that authority; clean or option on => fetch attempted; sibling always fetched; non-trivial = flagged host with the option off (sibling present in every case); distinct by serialised case");
+    rep.rule("1-3 validation runs on the same Collector (as a server performs them) per case; generated authorities (localhost; dotted IPv4; bare and bracketed IPv6; name/IPv4/IPv6/localhost with explicit port incl. default ports; clean names with digits, quad-like prefixes or containing 'localhost'; open forms: case variants, trailing dot, inet_aton-style numeric names, userinfo) placed in caRepository, rpkiNotify or both of a CA certificate issued under a clean trust anchor (encoded, decoded, validated, CaCert::chain) and handed to Run::repository next to a sibling CA on a clean host, x allow-dubious-hosts; oracle = independent classifier from the property text; flagged+option off => no rvrsync invocation and no CONNECT for that authority; clean or option on => fetch attempted; sibling always fetched; non-trivial = flagged host with the option off (sibling present in every case); distinct by serialised case");
     rep.assume("every request routinator starts is visible: rsync via the fake rsync command's invocation log, https via the CONNECT log of the harness proxy (rrdp-proxies); authorities rpki's URI types reject ('[', ']', '@') cannot come out of a decoded certificate and are counted as unrepresentable");
     ctx.shrink_iters.store(200, std::sync::atomic::Ordering::Relaxed);
     if let Some(v) = replay {
@@ -282,7 +294,7 @@ pub fn run(ctx: &Ctx, rep: &mut Report, replay: Option<&serde_json::Value>) {
     for a in fixed {
         for placement in [Placement::Rsync, Placement::Notify, Placement::Both] {
             for allow in [false, true] {
-                let c = Case { authority: a.to_string(), form: "fixed".into(), placement, allow, sibling: "fixed.sibling.rpki.test".into() };
+                let c = Case { authority: a.to_string(), form: "fixed".into(), placement, allow, sibling: "fixed.sibling.rpki.test".into(), runs: 2 };
                 run_case(ctx, rep, "fixed", &c, prop);
                 if rep.violated() {
                     return;
